@@ -213,3 +213,29 @@ impl AnimationAppExt for App {
         self
     }
 }
+
+/// Verification hook: registers the same two systems as
+/// [register_animation_key](AnimationAppExt::register_animation_key), both before the animation
+/// system for `T`, but additionally fixes the relative order of the pair, which the regular
+/// registration leaves to the scheduler. Used to run both legal linearizations deterministically.
+#[cfg(feature = "verif-hooks")]
+pub fn verif_register_animation_key_ordered<T: Component, K: AnimationKey>(
+    app: &mut App,
+    select_first: bool,
+) -> &mut App {
+    if select_first {
+        app.add_systems(
+            Update,
+            (select_animation::<K, T>, chain_animations::<K, T>)
+                .chain()
+                .before(animate::<T>),
+        )
+    } else {
+        app.add_systems(
+            Update,
+            (chain_animations::<K, T>, select_animation::<K, T>)
+                .chain()
+                .before(animate::<T>),
+        )
+    }
+}
